@@ -174,7 +174,14 @@ class Gen:
             with self.ctx(func=True, retval="{}"):
                 rt, jr = self.beh(d - 2)
             with self.ctx(loop=True):
-                b, jb = self.beh(d - 1)
+                # no yield / await inside a for-of over an iterator with a JS return(): generator.return() closes such an
+                # iterator through restoreStacks (record still on the stack, shielded by vm.try), which differs from the
+                # `return` statement the model resumes with (enumPopClose) — outside the model's scope (design/C03.md)
+                old_gen, self._gen = self._gen, None
+                try:
+                    b, jb = self.beh(d - 1)
+                finally:
+                    self._gen = old_gen
             it = self.fresh("it")
             js = "var %s = MKIT(function(){ %s return {}; }); for (var w%d of %s) { %s }" % (it, jr, d, it, jb)
             return ["S", "Fn", "1", "K", "FO", "G", "0"] + rt + b, js
